@@ -133,7 +133,14 @@ func (e *Engine) recordAccess(loc string, write bool) {
 	m[a]++
 }
 
+func (e *Engine) noteOwnership(p *Value, what string) {
+	if e.ls.on && len(e.inPool) > 0 && e.inPool[p] {
+		e.reportKind("ownership", what+" of memory already returned to a sync.Pool, in "+e.curFunc(), nil)
+	}
+}
+
 func (e *Engine) noteLoad(p *Value) {
+	e.noteOwnership(p, "read")
 	if e.ls.on {
 		if loc, ok := e.ls.shared[p]; ok {
 			e.recordAccess(loc, false)
@@ -141,6 +148,7 @@ func (e *Engine) noteLoad(p *Value) {
 	}
 }
 func (e *Engine) noteStore(p *Value) {
+	e.noteOwnership(p, "write")
 	if e.ls.on {
 		if loc, ok := e.ls.shared[p]; ok {
 			e.recordAccess(loc, true)
